@@ -1889,7 +1889,16 @@ class H2Connection:
         transition the state of the stream, so we need to pass it to the
         appropriate stream.
         """
-        stream = self._get_stream_by_id(frame.stream_id)
+        try:
+            stream = self._get_stream_by_id(frame.stream_id)
+        except StreamClosedError:
+            # The stream has been cleaned up already. That must not turn this
+            # into a stream error: a CONTINUATION frame that continues nothing
+            # is a connection error (RFC 7540 Section 6.10).
+            raise ProtocolError(
+                "CONTINUATION frame on stream %d without a header block" %
+                frame.stream_id
+            )
         stream.receive_continuation()
         assert False, "Should not be reachable"
 
